@@ -215,6 +215,7 @@ fn emit_wrapped_loop_choice_body(
             && matches!(choice.body.as_slice(), [Node::Divert(_)])
         {
             branch_nodes.extend(tokenize_inline_content(&format!(" {selected_text}"))?);
+            branch_nodes.extend(choice.selected_tags.iter().cloned().map(Node::Tag));
             branch_nodes.extend(choice.body.clone());
             branch_nodes.push(Node::Newline);
             body_already_emitted = true;
@@ -222,15 +223,18 @@ fn emit_wrapped_loop_choice_body(
             if !text.is_empty() {
                 branch_nodes.extend(tokenize_inline_content(&text)?);
             }
+            branch_nodes.extend(choice.selected_tags.iter().cloned().map(Node::Tag));
             branch_nodes.push(Node::Divert(Divert {
                 target,
                 arguments: Vec::new(),
             }));
             body_already_emitted = true;
-        } else if !choice.has_start_content {
-            branch_nodes.extend(tokenize_inline_content(selected_text)?);
+        } else {
+            if !choice.has_start_content {
+                branch_nodes.extend(tokenize_inline_content(selected_text)?);
+            }
+            branch_nodes.extend(choice.selected_tags.iter().cloned().map(Node::Tag));
         }
-        branch_nodes.extend(choice.selected_tags.iter().cloned().map(Node::Tag));
         if !body_already_emitted && !choice.has_start_content {
             let body_is_terminal_divert = matches!(
                 choice.body.as_slice(),
